@@ -317,6 +317,36 @@ theorem C14_login_ok_iff (c : Cfg) (h : List Op) (u i : Name) (p : Pw) :
   · simp
   · cases hs : saslAuthPlain c (tableAfter c h) u p <;> simp [eq_comm]
 
+/-! ### the LOGIN server hands the client's responses over unchanged -/
+
+/-- Whatever bytes the client sends as user name and password — white space, control characters, line ends included —
+are what the authenticator is called with, with and without an initial response. -/
+theorem C14_login_server_hands_over_the_responses (u : Name) (p : Pw) :
+    loginExchange [some u, some p] = some (u, p) ∧ loginExchange [none, some u, some p] = some (u, p) := by
+  simp [loginExchange, loginExchangeFrom, LoginSrv.next]
+
+/-- LOGIN driven through the server is the LOGIN closure applied to the supplied name and password. -/
+theorem C14_login_via_server (c : Cfg) (t : Tbl) (ir : Bool) (u : Name) (p : Pw) :
+    loginVia c t ir u p = login c t u p := by
+  have h := C14_login_server_hands_over_the_responses u p
+  unfold loginVia login
+  cases ir <;> simp [h.1, h.2]
+
+/-- Hence over the wire: LOGIN succeeds exactly when the password is the current one of the account that the user
+name AS SENT resolves to, and the identity is the name as sent; a name that resolves to no account (PRECIS refuses a
+name with white space or control characters) never succeeds — and PLAIN gives the same verdict. -/
+theorem C14_login_wire_ok_iff (c : Cfg) (h : List Op) (ir : Bool) (u i : Name) (p : Pw) :
+    loginVia c (tableAfter c h) ir u p = .ok i ↔
+      c.loginEnabled = true ∧ i = u ∧
+      ∃ k s q, resolve c u = some k ∧ current c h.reverse k = some (s, q) ∧ pwEq s p q = true := by
+  rw [C14_login_via_server, C14_login_ok_iff]
+
+theorem C14_login_wire_unresolved_name_refused (c : Cfg) (h : List Op) (ir : Bool) (u i : Name) (p : Pw)
+    (hu : resolve c u = none) : loginVia c (tableAfter c h) ir u p ≠ .ok i := by
+  intro hok
+  obtain ⟨_, _, k, s, q, hk, _⟩ := (C14_login_wire_ok_iff c h ir u i p).mp hok
+  simp [hu] at hk
+
 /-! ### "most recently" without recursion: frame and last-writer theorems -/
 
 theorem current_skip (c : Cfg) (k : Name) (op : Op) (older : List Op) (h : touches c k op = false) :
@@ -483,6 +513,12 @@ theorem C14_plain_login_agree (c : Cfg) (t : Tbl) (u : Name) (p : Pw) (hl : c.lo
   unfold login plain
   cases hs : saslAuthPlain c t u p <;> simp [hl]
 
+/-- …also over the wire: the LOGIN server adds nothing and removes nothing. -/
+theorem C14_login_wire_agrees_with_plain (c : Cfg) (t : Tbl) (ir : Bool) (u : Name) (p : Pw)
+    (hl : c.loginEnabled = true) : loginVia c t ir u p = plain c t [] u p := by
+  rw [C14_login_via_server]
+  exact (C14_plain_login_agree c t u p hl).1
+
 /-- **C14.** An authorization identity that differs from the authenticated user name is refused. -/
 theorem C14_authzid_mismatch_refused (c : Cfg) (t : Tbl) (a u : Name) (p : Pw)
     (h1 : a ≠ []) (h2 : a ≠ u) : plain c t a u p = .fail := by
@@ -543,7 +579,18 @@ theorem gate_invariant (pre : List Cmd) :
     obtain ⟨ih1, ih2, ih3⟩ := ih
     have mono := authSucceededIn_mono true r x
     cases x with
-    | ehlo => exact ⟨fun h => mono (ih1 h), ih2, ih3⟩
+    | ehlo v =>
+      simp only [connStep]
+      by_cases hh : (connAfter true r).helo = true
+      · simp only [hh]
+        exact ⟨fun h => mono (ih1 h), ih2, ih3⟩
+      · cases v with
+        | none =>
+          simp only [hh]
+          exact ⟨fun h => mono (ih1 (by simpa using h)), by simpa using ih2, by simpa using ih3⟩
+        | some code =>
+          simp only [hh]
+          exact ⟨fun h => mono (ih1 h), ih2, ih3⟩
     | noop => exact ⟨fun h => mono (ih1 h), ih2, ih3⟩
     | rset => exact ⟨fun h => mono (ih1 h), by simp [connStep], ih3⟩
     | mail =>
@@ -619,7 +666,7 @@ theorem C14_no_mail_before_auth (pre : List Cmd) (x : Cmd) (hx : isTxCmd x = tru
     by_cases hf : (connAfter true pre).fromReceived = true
     · exact i1 (i2 hf)
     · simp [hf] at hacc
-  | ehlo => simp [isTxCmd] at hx
+  | ehlo v => simp [isTxCmd] at hx
   | noop => simp [isTxCmd] at hx
   | rset => simp [isTxCmd] at hx
   | auth r => simp [isTxCmd] at hx
@@ -640,8 +687,40 @@ theorem C14_connRun_last (required : Bool) (pre : List Cmd) (x : Cmd) :
 /-- Conversely (the gate is not vacuous): right after EHLO and a successful AUTH with a non-empty identity,
 MAIL is accepted; and on an endpoint that does not require authentication MAIL is accepted after EHLO. -/
 theorem C14_mail_after_auth_accepted (i : Name) (hi : i ≠ []) :
-    (connStep true (connAfter true [.ehlo, .auth (.ok i)]) .mail).2 = 250 := by
+    (connStep true (connAfter true [.ehlo none, .auth (.ok i)]) .mail).2 = 250 := by
   simp [connAfter, connStep, hi]
+
+/-- An AUTH command that is not answered 235 — whatever the reason: wrong credentials, unsupported mechanism, no
+greeting, already authenticated — leaves the connection exactly as it was: no identity is recorded for the session,
+`didAuth` stays as it was.  (`Session.Auth`'s success callback is the only place that sets `AuthUser`, it runs only
+when the exchange has succeeded and nothing after it can fail.) -/
+theorem C14_unsuccessful_auth_changes_nothing (required : Bool) (s : Conn) (r : AuthRes)
+    (h : (connStep required s (.auth r)).2 ≠ 235) : (connStep required s (.auth r)).1 = s := by
+  simp only [connStep] at h ⊢
+  by_cases hh : s.helo = true
+  · by_cases hd : s.didAuth = true
+    · simp [hh, hd]
+    · cases r <;> simp_all
+  · simp [hh]
+
+/-- …so every command after it is answered exactly as if that AUTH had not been sent: in particular MAIL after a
+failed AUTH on a submission endpoint is answered as before it (for any command sequence before and after). -/
+theorem C14_unsuccessful_auth_is_invisible (required : Bool) (s : Conn) (r : AuthRes) (rest : List Cmd)
+    (h : (connStep required s (.auth r)).2 ≠ 235) :
+    connRun required s (.auth r :: rest) = (connStep required s (.auth r)).2 :: connRun required s rest := by
+  simp [connRun, C14_unsuccessful_auth_changes_nothing required s r h]
+
+/-- The early checks are consulted by the greeting that gives the connection its session and by nothing else: a
+greeting they refuse is answered with their code and leaves the connection without session (AUTH and MAIL are then
+answered 502), and once the connection has its session no later verdict changes any reply. -/
+theorem C14_refused_greeting_opens_nothing (required : Bool) (s : Conn) (code : Nat) (hs : s.helo = false) :
+    connStep required s (.ehlo (some code)) = (s, code) ∧
+    (∀ r, (connStep required s (.auth r)).2 = 502) ∧ (connStep required s .mail).2 = 502 := by
+  simp [connStep, hs]
+
+theorem C14_early_verdict_only_at_first_greeting (required : Bool) (s : Conn) (v w : EarlyVerdict) (hs : s.helo = true) :
+    connStep required s (.ehlo v) = connStep required s (.ehlo w) := by
+  simp [connStep, hs]
 
 /-! ## `auth_map_normalize`: a user name stands for the account management addresses by that name
 
@@ -1103,14 +1182,25 @@ example : pwEq .bcrypt [97, 98, 0, 97, 98] [97, 98] = true := by decide
 example : pwEq .bcrypt [] [] = true ∧ pwEq .bcrypt [1] [] = false ∧ hashable .bcrypt [] = true := by decide
 -- a password of 73 bytes cannot be stored with bcrypt
 example : hashable .bcrypt (List.replicate 73 1) = false := by decide
+-- the LOGIN server: "alice " (trailing space) is handed over as it is, with and without initial response; a third
+-- response after the exchange is an error, not a second authentication
+example : loginExchange [none, some [97, 108, 105, 99, 101, 32], some [112, 13, 10]] = some ([97, 108, 105, 99, 101, 32], [112, 13, 10]) ∧
+    loginExchange [some [9, 97], some []] = some ([9, 97], []) ∧ loginExchange [none, some [97]] = none := by decide
+example : ((({} : LoginSrv).next (some [97])).1.next (some [112])).1.next (some [112]) =
+    ({ state := .finished, username := [97] }, .unexpected) := by decide
 -- gate: MAIL before AUTH is refused, after AUTH accepted; hypotheses of C14_no_mail_before_auth satisfiable
-example : connRun true {} [.ehlo, .mail, .auth .fail, .mail, .auth (.ok [1]), .mail, .rcpt, .data] =
+example : connRun true {} [.ehlo none, .mail, .auth .fail, .mail, .auth (.ok [1]), .mail, .rcpt, .data] =
     [250, 502, 454, 502, 235, 250, 250, 250] := by decide
-example : isTxCmd .mail = true ∧ (connStep true (connAfter true [.ehlo, .auth (.ok [1])]) .mail).2 < 400 := by decide
+example : isTxCmd .mail = true ∧ (connStep true (connAfter true [.ehlo none, .auth (.ok [1])]) .mail).2 < 400 := by decide
 -- a second EHLO keeps the session (fix e064dc2): the identity stays, a second AUTH is refused;
 -- MAIL inside an open transaction (a recipient was accepted) is refused (fix 621600d)
-example : connRun true {} [.ehlo, .auth (.ok [1]), .ehlo, .mail, .auth (.ok [1]), .rcpt, .mail, .rset, .mail] =
+example : connRun true {} [.ehlo none, .auth (.ok [1]), .ehlo none, .mail, .auth (.ok [1]), .rcpt, .mail, .rset, .mail] =
     [250, 235, 250, 250, 503, 250, 503, 250, 250] := by decide
+-- early checks: a refused greeting gives no session (AUTH, MAIL: 502), the next greeting asks again; a verdict that turns
+-- bad after the session exists changes nothing; MAIL after a failed AUTH is refused like MAIL before it
+example : connRun true {} [.ehlo (some 550), .auth (.ok [1]), .mail, .ehlo (some 451), .ehlo none, .ehlo (some 550), .auth .fail, .mail,
+      .auth (.ok [1]), .mail] = [550, 502, 502, 451, 250, 250, 454, 502, 235, 250] := by decide
+example : (connStep true (connAfter true [.ehlo none]) (.auth .fail)).2 ≠ 235 := by decide
 
 -- auth_map_normalize auto: 'straße' [115,116,114,97,223,101] and 'strasse' are different accounts (ucm lower-cases, it
 -- does not case-fold); [9,9] plays the e-mail address.  Hypotheses of C14_auto_* are satisfiable and the verdicts differ.
